@@ -3,7 +3,10 @@ from . import c05_c16_flow as flow
 
 MODULE = "StorageModel.Properties.C16"
 THEOREMS = ["system_needs_system_ctx", "refused_tx_unchanged", "refused_aborts", "system_needs_system_ctx_tx",
-            "system_ctx_allowed", "flag_immutable", "update_never_changes_flag", "setBaseValues_update_keeps",
+            "ordinary_step_preserves_system", "ordinary_tx_preserves_system", "ordinary_history_preserves_system",
+            "cascade_never_deletes_system",
+            "system_ctx_allowed", "flag_immutable", "flag_change_needs_system_child_create",
+            "update_never_changes_flag", "setBaseValues_update_keeps", "createBaseValues_never_clears",
             "ordinary_unaffected",
             "model_refines_spec"]
 
@@ -14,8 +17,8 @@ def _unhex(w):
 
 def normalise(impl):
     """what the spec speaks about: a failing call only *fails* (`!`), an uncommitted partial state is
-    not described (`*`), and the storage form of the flag (last field of a view entry) is not part of
-    the property (`_`)"""
+    not described (`*`), and neither the link set nor the storage form of the flag (last two fields of
+    a view entry) is part of the property (`_`)"""
     out = []
     for tx in impl.split(" "):
         p = tx.split("|")
@@ -25,7 +28,7 @@ def normalise(impl):
         ents = []
         for e in p[2].split(";"):
             if "=" in e and "/" in e:
-                e = e.rsplit("/", 1)[0] + "/_"
+                e = e.rsplit("/", 2)[0] + "/_/_"
             ents.append(e)
         out.append(";".join(res) + "|" + ("*" if p[1] else "") + "|" + ";".join(ents))
     return " ".join(out)
@@ -33,80 +36,115 @@ def normalise(impl):
 
 def nontrivial(case, impl):
     # non-trivial: the history contains a system entity at some point (committed or not) or a refusal
-    if "/t/" in impl or "!sys" in impl:
+    if "=t/t/" in impl or "!sys" in impl or "!via:sys" in impl:
         return case
     return None
 
 
+_CTX = {"o": "ordinary", "s": "system", "n": "nested-update-system", "m": "nested-update-own"}
+_WITH_CTX = ("c", "u", "d", "C", "U", "D", "oc", "od", "w")
+
+
 def histogram(case, impl, h):
+    def inc(k):
+        h[k] = h.get(k, 0) + 1
     f = case.split(" ")
     ntx = len(f) - 2
-    h[f"transactions:{min(ntx, 9)}"] = h.get(f"transactions:{min(ntx, 9)}", 0) + 1
+    inc(f"transactions:{min(ntx, 9)}")
     for tx in f[2:]:
         head, _, body = tx.partition("!")
-        h["tx-context:" + head[0]] = h.get("tx-context:" + head[0], 0) + 1
-        h["tx-mode:" + ("abort" if head[1] == "a" else "keep-going")] = h.get("tx-mode:" + ("abort" if head[1] == "a" else "keep-going"), 0) + 1
+        inc("tx-context:" + head[0])
+        inc("tx-mode:" + ("abort" if head[1] == "a" else "keep-going"))
         for op in body.split(";"):
             x = op.split(":")
-            k = "op:" + x[0] + (":" + x[1] if x[0] in "cud" else "")
-            h[k] = h.get(k, 0) + 1
-            if x[0] == "u":
-                h["update-checker:" + x[5]] = h.get("update-checker:" + x[5], 0) + 1
-                k2 = "update-carries:IsSystem=" + x[3] + ",Migrate=" + x[6]
-                h[k2] = h.get(k2, 0) + 1
-            if x[0] == "c":
-                k2 = "create-carries:IsSystem=" + x[3] + ",Migrate=" + x[5]
-                h[k2] = h.get(k2, 0) + 1
+            inc("op:" + x[0] + (":" + x[1] if x[0] in _WITH_CTX else ""))
+            if x[0] in ("u", "U"):
+                inc("update-checker:" + x[5])
+                inc("update-carries:IsSystem=" + x[3] + ",Migrate=" + x[6])
+            if x[0] in ("c", "C"):
+                inc("create-carries:IsSystem=" + x[3] + ",Migrate=" + x[5])
+            if x[0] == "w":
+                inc("delete-where:" + x[2] + (("=" + x[3]) if x[2] == "s" else ""))
     for tx in impl.split(" "):
         p = tx.split("|")
         for r in p[0].split(";"):
             if r.startswith("!"):
-                k = "error:" + r[1:].split("(")[0]
-                h[k] = h.get(k, 0) + 1
+                inc("error:" + r[1:].split("(")[0])
         if len(p) == 3 and p[1]:
-            h["transactions-rolled-back"] = h.get("transactions-rolled-back", 0) + 1
+            inc("transactions-rolled-back")
 
 
 def describe(case, impl, model, spec):
     f = case.split(" ")
+
     def rest(x):
         tag = "nil" if x[3] == "~" else repr(_unhex(x[3]))
-        return f"Migrate={x[0]} CreatedAt={x[1]} UpdatedAt={x[2]} Tags[k]={tag}"
+        out = f"Migrate={x[0]} CreatedAt={x[1]} UpdatedAt={x[2]} Tags[k]={tag}"
+        if len(x) > 4:
+            out += f" Owner={_unhex(x[4])!r}"
+        if len(x) > 5:
+            out += f" Level={_unhex(x[5])!r}"
+        return out
+
+    def ctx(k):
+        return {"o": "ordinary ctx", "s": "system ctx", "n": "nested db.Update(ctx.GetSystemContext())",
+                "m": "nested db.Update(ctx) after GetSystemContext() was derived"}.get(k, k)
 
     def op(o):
         x = o.split(":")
-        if x[0] == "c":
-            return f"Create[{'system' if x[1] == 's' else 'ordinary'} ctx] id={_unhex(x[2])!r} IsSystem={x[3]} name={_unhex(x[4])!r} {rest(x[5:9])}"
-        if x[0] == "u":
-            return f"Update[{'system' if x[1] == 's' else 'ordinary'} ctx] id={_unhex(x[2])!r} IsSystem={x[3]} name={_unhex(x[4])!r} checker={x[5]} {rest(x[6:10])}"
-        if x[0] == "d":
-            return f"DeleteById[{'system' if x[1] == 's' else 'ordinary'} ctx] id={_unhex(x[2])!r}"
+        k = x[0]
+        if k in ("c", "C"):
+            return f"{'Create' if k == 'c' else 'child-store Create'}[{ctx(x[1])}] id={_unhex(x[2])!r} IsSystem={x[3]} name={_unhex(x[4])!r} {rest(x[5:])}"
+        if k in ("u", "U"):
+            return f"{'Update' if k == 'u' else 'child-store Update'}[{ctx(x[1])}] id={_unhex(x[2])!r} IsSystem={x[3]} name={_unhex(x[4])!r} checker={x[5]} {rest(x[6:])}"
+        if k in ("d", "D"):
+            return f"{'DeleteById' if k == 'd' else 'child-store DeleteById'}[{ctx(x[1])}] id={_unhex(x[2])!r}"
+        if k == "oc":
+            return f"owners.Create[{ctx(x[1])}] id={_unhex(x[2])!r}"
+        if k == "od":
+            return f"owners.DeleteById[{ctx(x[1])}] id={_unhex(x[2])!r} (cascades to the referring entities)"
+        if k == "w":
+            q = {"T": "true", "n": "name = ", "o": "owner = ", "s": "isSystem = "}[x[2]]
+            if x[2] in ("n", "o"):
+                q += repr(_unhex(x[3]))
+            elif x[2] == "s":
+                q += {"t": "true", "f": "false"}[x[3]]
+            return f"DeleteWhere[{ctx(x[1])}] {q}"
+        if k in ("l", "x"):
+            return f"peers.{'AddLinks' if k == 'l' else 'RemoveLinks'}(tx, {_unhex(x[1])!r}, {_unhex(x[2])!r})"
         return f"FindById id={_unhex(x[1])!r}"
     txs = []
     for tx in f[2:]:
         head, _, body = tx.partition("!")
         txs.append({"db.Update context": "system" if head[0] == "S" else "ordinary",
-                    "on error": "abort" if head[1] == "a" else "ignore (except refused create) and commit",
+                    "on error": "abort" if head[1] == "a" else "ignore (unless the failed call left partial writes) and commit",
                     "ops": [op(o) for o in body.split(";")]})
-    return {"kind": "history", "pool": [_unhex(k) for k in f[1].split(",")], "transactions": txs,
-            "impl": impl, "model": model, "spec": spec, "case": case}
+    pools = f[1].split("/")
+    return {"kind": "history", "pool": [_unhex(k) for k in pools[0].split(",")],
+            "owner pool": [_unhex(k) for k in pools[1].split(",")] if len(pools) > 1 and pools[1] else [],
+            "transactions": txs, "impl": impl, "model": model, "spec": spec, "case": case}
 
 
 MATCHERS = {}
 
-RULE = ("each case is a history of Db.Update transactions over a real store of ext-entities with the system-entity "
-        "constraint on a fresh bolt file; every Create/Update carries the WHOLE in-memory entity (IsSystem, Migrate, "
-        "CreatedAt, UpdatedAt, Tags, name). (1) exhaustive two-step histories: create (ordinary|system ctx) x (IsSystem t|f) "
+RULE = ("each case is a history of Db.Update transactions over real stores on a fresh bolt file: the constrained store S of "
+        "ext-entities (system-entity constraint, fk `owner` with CascadeDelete to a second store O, link collection to O), "
+        "a child store C of S; every Create/Update carries the WHOLE in-memory entity (IsSystem, Migrate, CreatedAt, "
+        "UpdatedAt, Tags, name, owner). (1) exhaustive two-step histories on S: create (ordinary|system ctx) x (IsSystem t|f) "
         "x (Migrate t|f), then delete / re-create / update (IsSystem t|f) x (Migrate t|f) x (checker nil, name, isSystem, "
-        "all fields, empty) from either "
-        "context, in the same or a later transaction, Db.Update handed an ordinary or a system context, body aborting "
-        "at the first error or ignoring errors and committing, followed by a read-back transaction; (2) random histories "
-        "(2-7 transactions of 1-4 operations over 2-4 ids) mixing both context kinds per operation and per transaction, "
-        "IsSystem 1/2, Migrate 2/5, timestamps from {zero, 1000, 2000, 3000}, tags nil or a value, 11 checker shapes. "
-        "After every operation the error kind, after a failing operation the uncommitted state, after every transaction "
-        "FindById (IsSystemEntity, name, tag, createdAt, updatedAt as zero / given value / clock) and the raw isSystem key "
-        "of every pool id are compared. non-trivial = the "
-        "history holds a system entity at some point or contains a refusal; distinct = distinct case lines")
+        "all fields, empty) from either context, in the same or a later transaction, Db.Update handed an ordinary or a "
+        "system context, body aborting at the first error or ignoring errors and committing, followed by a read-back "
+        "transaction; (2) exhaustive indirect paths: owner with two referrers (each system or not, either id order) deleted "
+        "from every kind of context (own, GetSystemContext(), nested Db.Update with the system context, nested Db.Update "
+        "with the own context after a system context was derived), DeleteWhere by 7 queries, child-store Create / Update / "
+        "DeleteById over a system / ordinary / missing parent with or without child data, link / unlink and deleting the "
+        "far end, each followed by direct attempts from an ordinary context and a read-back; (3) random histories (2-7 "
+        "transactions of 1-4 operations over 2-4 ids and 1-3 owners) mixing all operations and context kinds, IsSystem 1/2, "
+        "Migrate 2/5, timestamps from {zero, 1000, 2000, 3000}, tags nil or a value, 16 checker shapes. After every "
+        "operation the error kind, after a failing operation the uncommitted state, after every transaction FindById "
+        "(IsSystemEntity, name, tag, createdAt, updatedAt as zero / given value / clock, owner), the child store's view, "
+        "the link set, the raw isSystem key of every pool id and the presence of every owner are compared. non-trivial = "
+        "the history holds a system entity at some point or contains a refusal; distinct = distinct case lines")
 
 
 def candidates(case):
@@ -125,10 +163,23 @@ def candidates(case):
                 out.append(" ".join(head + txs[:i] + [h + "!" + ";".join(ops[:j] + ops[j + 1:])] + txs[i + 1:]))
         if h[1] == "k":
             out.append(" ".join(head + txs[:i] + [h[0] + "a!" + body] + txs[i + 1:]))
-    ids = head[1].split(",")
+    pools = head[1].split("/")
+    ids = pools[0].split(",")
+    oids = pools[1].split(",") if len(pools) > 1 and pools[1] else []
+    def mk(a, b):
+        return ",".join(a) + (("/" + ",".join(b)) if len(pools) > 1 else "")
+    # a pool id is only dropped when no operation mentions it any more (the harness reports entities
+    # outside the pools as EXTRA, which must not become the "failure" a shrunk case shows)
+    used = set()
+    for tx in txs:
+        for o in tx.partition("!")[2].split(";"):
+            used.update(o.split(":")[1:])
     for q in range(len(ids)):
-        if len(ids) > 1:
-            out.append(" ".join([head[0], ",".join(ids[:q] + ids[q + 1:])] + txs))
+        if len(ids) > 1 and ids[q] not in used:
+            out.append(" ".join([head[0], mk(ids[:q] + ids[q + 1:], oids)] + txs))
+    for q in range(len(oids)):
+        if oids[q] not in used:
+            out.append(" ".join([head[0], mk(ids, oids[:q] + oids[q + 1:])] + txs))
     return out
 
 
@@ -137,6 +188,8 @@ def run(ctx, replay_cases=None):
         "bbolt: Db.Update commits iff the body returns nil, otherwise nothing is written (exercised by the correspondence on every run)",
         "every typed setter of PersistContext/TypedBucket is a no-op once the bucket's error holder is set (ProceedWithSet; exercised by the keep-going histories: a refused update that is ignored and committed leaves the entity unchanged)",
         "the entity's PersistEntity uses BaseExtEntity.SetBaseValues (a store whose strategy writes isSystem itself is outside the model)",
+        "the universe of the model: one constrained store with one nullable cascade-delete fk and one link collection to a second store, one plain child store, the system constraint registered after the fk constraint (other schemas: more fks, restrict instead of cascade, extended child stores, constraint orders are outside the model)",
+        "link collections are outside the property: they take a bare *bbolt.Tx, no MutateContext, so the constraint cannot apply (the model records what they do; the theorems state everything but the link set of a system entity is untouched by ordinary contexts)",
         "a persisted timestamp is compared as: zero time / one of the values the generator hands out / anything else = the clock",
     ]
     return flow.flow(ctx, "c16", MODULE, THEOREMS, MATCHERS, normalise=normalise, nontrivial=nontrivial,
